@@ -182,8 +182,9 @@ def run_kill_case(case):
 class C06(TraceProp):
     id = 'C06'
     theorems = ['Continuum.c06_db_holds', 'Continuum.c06_as_if_never', 'Continuum.c06_as_if_never_run', 'Continuum.c06_uow_gone',
-                'Continuum.c06_savepoint_released', 'Continuum.c06_savepoint_db', 'Continuum.c06_savepoint_no_flush',
-                'Continuum.c06_savepoint_counterexample']
+                'Continuum.c06_savepoint_released', 'Continuum.c06_savepoint_db', 'Continuum.c06_savepoint_no_flush_corrected',
+                'Continuum.c06_savepoint_rolled_back', 'Continuum.c06_savepoint_fixed_example', 'Continuum.sp_bracket_erase',
+                'Continuum.run_sameButCache']
     level = 'proof'
     sections = ('versions', 'txs', 'assoc', 'mgr')
     seg_fields = ('C06db',)
@@ -194,12 +195,13 @@ class C06(TraceProp):
             'exhaustively per program), followed by session.rollback() / session.close() / connection rollback / a reported disconnect (connection invalidated, file database) + session.rollback(); all '
             'continuum tables, live tables and the manager maps must equal the pre-transaction state, the error must '
             'reach the caller, and the retried transaction must equal the uninterrupted twin; savepoint begin / release / '
-            'rollback placed at every step boundary of programs without a versioned flush inside a rolled-back savepoint; '
+            'rollback placed at every step boundary of programs, with or without versioned flushes inside the bracket; '
             'kill runs: child process on a file database calls os._exit at statement n, parent checks the file; '
             'non-trivial = the fault hits after at least one version or transaction row was written; distinct = (program, n, mode)')
     assumptions = ['atomic rollback of the DBMS (SQLite journal) is assumed by the theorems and exercised by the kill runs',
                    'faults are injected at statement boundaries (before_cursor_execute), not inside the DB-API call',
-                   'savepoint rollback after a versioned flush inside the savepoint is the open finding F-SP (pinned cases)']
+                   'for a segment that contains rolled-back savepoints the segment predicates are evaluated on the event list '
+                   'with those brackets erased (theorem sp_bracket_erase: the erased history reaches the same state up to the cache)']
     needs_tags = ['fault', 'kill', 'savepoint', 'mode:rollback', 'mode:close', 'mode:disconnect', 'fault_after_version_write']
 
     def counts(self, tier):
@@ -207,8 +209,8 @@ class C06(TraceProp):
 
     def base_case(self, rng):
         spec = proggen.random_spec(rng, shapes=['articles', 'articles', 'joined', 'm2m', 'composite', 'comment'])
-        prefix = proggen.random_program(rng, spec, rng.choice([4, 8, 12]), weights={'rollback': 0, 'unlink': 0})
-        tx = proggen.random_program(rng, spec, rng.choice([3, 5, 8]), weights={'rollback': 0, 'commit': 0, 'flush': 4, 'unlink': 0, 'link': 1})
+        prefix = proggen.random_program(rng, spec, rng.choice([4, 8, 12]), weights={'rollback': 0, 'unlink': 0, 'expunge': 0})
+        tx = proggen.random_program(rng, spec, rng.choice([3, 5, 8]), weights={'rollback': 0, 'commit': 0, 'flush': 4, 'unlink': 0, 'link': 1, 'expunge': 0})
         return {'spec': spec, 'prefix': prefix, 'tx': tx, 'autoflush': rng.random() < 0.3}
 
     def gen(self, rng, tier):
@@ -238,7 +240,7 @@ class C06(TraceProp):
             i = rng.randrange(0, len(prog))
             j = rng.randrange(i, len(prog))
             body = prog[i:j]
-            release = rng.random() < 0.5 or any(s[0] in ('flush', 'commit', 'query', 'rollback') for s in body)
+            release = rng.random() < 0.5 or (not proggen.SP_ANY and any(s[0] in ('flush', 'commit', 'query', 'rollback') for s in body))
             if any(s[0] in ('commit', 'rollback') for s in body):
                 continue
             prog2 = prog[:i] + [['sp_begin']] + body + [['sp_commit'] if release else ['sp_rollback']] + prog[j:]
